@@ -164,10 +164,9 @@ func i3Build(r *rng, names []string, line func(*rng, []string) string) *i1Scenar
 	}
 	sc.storage = s
 	sc.note = strings.Join(note, " ‖ ")
-	scan := s.NewRuleStorageScanner()
-	for scan.Scan() {
-		f, _ := scan.Rule()
-		switch f := f.(type) {
+	// the rules the requests are aimed at are read list by list, not through the storage scanner under test
+	for _, sr := range mScanLists(ls) {
+		switch f := sr.rule.(type) {
 		case *rules.NetworkRule:
 			sc.nets = append(sc.nets, f)
 			sc.texts = append(sc.texts, f.RuleText)
@@ -239,7 +238,24 @@ func i3Source(r *rng, names []string) string {
 	case 2:
 		return genSourceURL(r)
 	default:
-		return pick(r, []string{"http://", "https://"}) + pick(r, []string{"", "", "www."}) + pick(r, names) + pick(r, []string{"", "/", "/page", "/banner"})
+		host := pick(r, []string{"", "", "www."}) + pick(r, names)
+		path := pick(r, []string{"", "/", "/page", "/banner"})
+		if r.chance(1, 3) {
+			// the referrer as a browser may hand it over: upper-case letters in the host and in the path (the engine
+			// matches referrer-level exceptions against the LOWER-CASED referrer URL)
+			switch r.n(4) {
+			case 0:
+				host = strings.ToUpper(host)
+			case 1:
+				host = mutateCase(r, host)
+			case 2:
+				path = pick(r, []string{"/Page", "/BANNER", "/AD/Img.GIF", "/Ads/Banner.png", "/Banner"})
+			default:
+				host, path = mutateCase(r, host), strings.ToUpper(path)
+			}
+		}
+
+		return pick(r, []string{"http://", "https://"}) + host + path
 	}
 }
 
